@@ -8,11 +8,13 @@ From Astisub Require Import Kit.Base Kit.Str Model.Srt Model.Vtt Model.Conv Mode
 From Astisub Require Import Proofs.SrtProofs Proofs.VttBase Proofs.VttLine Proofs.VttDoc Proofs.ConvProofs.
 Import ListNotations.
 
-Definition plain_faithful (u : Z) (ok : plain -> Prop) (enc : plain -> res str) (dec : str -> res plain) : Prop :=
+(* S = what the codec's documents are: a byte string for the five file formats, a list of delivered PES payloads for the
+   teletext reader model *)
+Definition plain_faithful {S : Type} (u : Z) (ok : plain -> Prop) (enc : plain -> res S) (dec : S -> res plain) : Prop :=
   forall p, ok p -> exists data, enc p = Ok data /\ dec data = Ok (ptrunc u p).
 
 (* source codec A, destination codec B *)
-Theorem plain_pair uA okA encA decA uB okB encB decB :
+Theorem plain_pair {SA SB : Type} uA okA (encA : plain -> res SA) decA uB okB (encB : plain -> res SB) decB :
   plain_faithful uA okA encA decA -> plain_faithful uB okB encB decB ->
   forall p, okA p -> okB (ptrunc uA p) ->
   exists src dst, encA p = Ok src /\ convert_plain decA encB src = Ok dst /\ decB dst = Ok (ptrunc uB (ptrunc uA p)).
